@@ -76,6 +76,7 @@ def run(tier, seed):
         _absorb_real_node(out, rn)
         mass_expiry_part(out, wd, seed, 22 if tier == "quick" else 60)
         if tier == "thorough":
+            aged_cluster_restart_part(out, wd, seed)
             try:
                 cluster_layer(out, wd, seed)
             except common.Inconclusive as e:
@@ -638,6 +639,87 @@ def cluster_layer(out, wd, seed):
         out.extra["cluster_layer"] = info
     finally:
         cl.kill_all()
+
+
+def aged_cluster_restart_part(out, wd, seed):
+    """real two-node cluster whose nodes are past their start-up announcements and whose last range change lies more than a minute
+    back: silent HTTP instances are registered, the node responsible for half of them is killed and restarted AT ONCE (its peer never
+    marks it unavailable). It has to learn its instances back from the peer and expire them: every silent instance must be gone from
+    BOTH nodes within the bound, the heart-beating ones must stay"""
+    info = {}
+    env = {"RNACOS_NAMING_HEALTH_TIMEOUT_SECOND": "0", "RNACOS_NAMING_INSTANCE_TIMEOUT_SECOND": "1"}      # H = 3 s, T = 4 s
+    n1 = procrig.Node(os.path.join(wd, "aged"), 1, env=env, auto_init=True, name="aged1")
+    n2 = procrig.Node(os.path.join(wd, "aged"), 2, env=env, join=n1.grpc_addr, auto_init=False, name="aged2")
+    stop = threading.Event()
+    try:
+        n1.start()
+        n2.start()
+        t0 = time.time()
+        while time.time() - t0 < 30:
+            m = n2.metrics()
+            if m and len((m.get("membership_config") or {}).get("members") or []) == 2 and m.get("current_leader"):
+                break
+            time.sleep(0.3)
+        else:
+            raise common.Inconclusive("two-node cluster did not form")
+        time.sleep(max(0.0, t0 + 70.0 - time.time()))      # start-up announcements (0/10/30/60 s) over, ranges settled for > 60 s
+        silent = ["c13aged-%d-s%d" % (seed, i) for i in range(16)]
+        beaten = ["c13aged-%d-b%d" % (seed, i) for i in range(4)]
+
+        def beater():
+            while not stop.is_set():
+                for i, sv in enumerate(beaten):
+                    try:
+                        _beat(n1, sv, "10.13.9.%d" % i, 80)
+                    except OSError:
+                        pass
+                stop.wait(1.0)
+        for i, sv in enumerate(beaten):
+            _register(n1, sv, "10.13.9.%d" % i, 80)
+        th = threading.Thread(target=beater, daemon=True)
+        th.start()
+        ok = sum(1 for i, sv in enumerate(silent) if _register(n1, sv, "10.13.8.%d" % i, 80))
+        t_reg = time.time()
+        if ok < len(silent):
+            raise common.Inconclusive("only %d of %d registrations accepted" % (ok, len(silent)))
+        time.sleep(0.7)                                   # one sync tick: both nodes hold all of them
+        n2.kill()
+        n2.start()
+        info["node2_back_after_s"] = round(time.time() - t_reg, 1)
+        # bound: T (4 s) after the registration for what node 1 supervises; for node 2's share: its restart + first snapshot exchange with
+        # its peer + T + check ticks; 25 s is generous for both
+        bound = 25.0
+        left = None
+        while time.time() - t_reg < bound:
+            left = {}
+            for nd in (n1, n2):
+                for i, sv in enumerate(silent):
+                    l = _list(nd, sv)
+                    if l is None or l:
+                        left.setdefault(nd.id, []).append(sv)
+            if not left:
+                break
+            time.sleep(1.0)
+        info["silent_instances_gone_after_s"] = round(time.time() - t_reg, 1) if not left else None
+        out.evaluations += 2 * len(silent)
+        kept = sum(1 for i, sv in enumerate(beaten) for nd in (n1, n2) if (_list(nd, sv) or {}).get(("10.13.9.%d" % i, 80)) is True)
+        info["heart_beating_instances_still_healthy(node x instance)"] = kept
+        if left:
+            out.violation("cluster/silent-instances-never-expire/owner-restarted-at-once-in-an-aged-cluster",
+                          dict(info, bound_s=bound, still_listed={str(k): v[:6] for k, v in left.items()}, n_silent=len(silent)))
+        elif kept < 2 * len(beaten):
+            out.violation("cluster/heart-beating-instance-lost/owner-restarted-at-once-in-an-aged-cluster", dict(info, expected=2 * len(beaten)))
+        else:
+            out.shape("cluster/aged-two-node-cluster/owner-restarted-at-once/silent-expired-everywhere")
+    except common.Inconclusive as e:
+        info["inconclusive"] = str(e)[:300]
+    except OSError as e:
+        info["inconclusive"] = repr(e)[:300]
+    finally:
+        stop.set()
+        n1.kill()
+        n2.kill()
+    out.extra["aged_cluster_restart"] = info
 
 
 def replay(path):
